@@ -78,6 +78,7 @@ let scripted () =
                st.(k) <- Some aio_init; dlc.(k) <- dl_init; ignore (dcfg k (DSetTimeout (z_of_int (-2)))); fin_impl.(k) <- false; observe "ok"
            | _ when st.(k) = None -> observe "noaio"
            | "tmo" -> ignore (dcfg k (DSetTimeout (z_of_int (int_of_string (List.hd rest))))); observe "ok"
+           | ("expire" | "expnever") when (match st.(k) with Some s -> s.g_subs <> s.g_cbs | None -> false) -> observe "busy"
            | "expire" -> ignore (dcfg k (DSetExpire (Some (n_of_int (max 0 (!now + int_of_string (List.hd rest))))))); observe "ok"
            | "expnever" -> ignore (dcfg k (DSetExpire None)); observe "ok"
            | "norm" -> ignore (dcfg k (DNormalize (z_of_int (int_of_string (List.hd rest))))); observe "ok"
@@ -216,7 +217,7 @@ let replay () =
          | None -> false
          | Some t ->
            let found = ref false in
-           for mask = 1 to (if !has14 then 255 else 31) do
+           for mask = 0 to (if !has14 then 255 else 31) do
              if not !found then begin
                let p0 = pre in
                let p1 = if mask land 1 <> 0 then { p0 with f_abort = false } else p0 in
@@ -230,6 +231,21 @@ let replay () =
                (match fw_step t p5 with
                 | Some e -> let e = if kind = 14 then { e with f_expire_ok = logged.f_expire_ok } else e in
                             if e = logged then found := true
+                            else begin
+                              (* ... or some of the reset's writes landed inside this critical section, after its
+                                 test and before its record was written *)
+                              for m2 = 1 to 31 do
+                                if not !found then begin
+                                  let q = e in
+                                  let q = if m2 land 1 <> 0 then { q with f_abort = false } else q in
+                                  let q = if m2 land 2 <> 0 then { q with f_result = n_of_int 0 } else q in
+                                  let q = if m2 land 4 <> 0 then { q with f_expire_ok = false } else q in
+                                  let q = if m2 land 8 <> 0 then { q with f_sleep = false } else q in
+                                  let q = if m2 land 16 <> 0 then { q with f_done = false } else q in
+                                  if q = logged then found := true
+                                end
+                              done
+                            end
                 | None -> ())
              end
            done;
@@ -247,6 +263,12 @@ let replay () =
                 if near_unlocked && same_locked exp logged then incr races
                 else if overtaken () then incr races
                 else if reset_ahead () then incr races
+                else if (kind = 13 || kind = 14) && { exp with f_expiring = false } = logged &&
+                        (let hit = ref false in
+                         for j = i + 1 to min (Array.length a - 1) (i + 4) do
+                           let (_, kd, _, _) = a.(j) in if kd = 11 || kd = 16 then hit := true
+                         done; !hit)
+                then incr races    (* the unlocked snapshot already shows the expire loop's "done with this aio", logged just after *)
                 else (incr bad;
                       Printf.printf "MISMATCH seq=%d aio=%d kind=%d pre: %s ; model: %s ; logged: %s\n" seq k kind (show pre) (show exp) (show logged))
               end));
